@@ -164,6 +164,10 @@ class KroneckerFactoredLattice(keras.layers.Layer):
       ValueError: If layer hyperparameters are invalid.
     """
     # pyformat: enable
+    if lattice_sizes is None or units is None or num_terms is None:
+      raise ValueError("'lattice_sizes', 'units' and 'num_terms' must be "
+                       "integers. Given: %s, %s, %s" %
+                       (lattice_sizes, units, num_terms))
     kfl_lib.verify_hyperparameters(
         lattice_sizes=lattice_sizes,
         units=units,
